@@ -59,6 +59,7 @@ type frame struct {
 	panic            any
 	phitemps         []value // temporaries for parallel phi assignment
 	callpos          token.Pos
+	cur              ssa.Instruction
 }
 
 func (fr *frame) get(key ssa.Value) value {
@@ -508,7 +509,12 @@ func runFrame(fr *frame) {
 			panic(p)
 		}
 		if fr.i.ps.panicStk == "" {
-			fr.i.ps.panicStk = describePanic(p) + " in " + stackOf(fr)
+			at := ""
+			if fr.cur != nil && fr.cur.Pos().IsValid() {
+				pp := fr.i.prog.Fset.Position(fr.cur.Pos())
+				at = fmt.Sprintf(" at %s:%d", shortFile(pp.Filename), pp.Line)
+			}
+			fr.i.ps.panicStk = describePanic(p) + at + " in " + stackOf(fr)
 		}
 		fr.panicking = true
 		fr.panic = p
@@ -519,6 +525,7 @@ func runFrame(fr *frame) {
 	for {
 		nonPhis := executePhis(fr)
 		for _, instr := range nonPhis {
+			fr.cur = instr
 			if visitInstr(fr, instr) == kReturn {
 				return
 			}
